@@ -307,7 +307,7 @@ func successClass(o *world.Obs) string {
 	return fmt.Sprintf("ok:%d:%s", o.Status, o.Location)
 }
 
-func c18Run(name string, cfg world.Config, tour []tourStep, dl time.Time) engine.UnitResult {
+func c18Run(name string, cfg world.Config, tour []tourStep, pairs bool, dl time.Time) engine.UnitResult {
 	res := engine.UnitResult{Exhaustive: true, Distinct: map[string]bool{}, Cover: map[string]int{}}
 	t0 := time.Now()
 	s, err := world.NewStack(cfg)
@@ -345,11 +345,28 @@ func c18Run(name string, cfg world.Config, tour []tourStep, dl time.Time) engine
 			calls := oRef.SeamCalls
 			actor := oRef.Req.Browser
 			var preAcc, refAcc map[string]bool
+			type plan struct {
+				k, k2 int
+				kind  world.FaultKind
+			}
+			var plans []plan
 			for k := range calls {
-				for _, kind := range []world.FaultKind{world.FaultGeneric, world.FaultNotFound} {
-					if kind == world.FaultNotFound && !hasSentinel(calls[k]) {
-						continue
+				plans = append(plans, plan{k, -1, world.FaultGeneric})
+				if hasSentinel(calls[k]) {
+					plans = append(plans, plan{k, -1, world.FaultNotFound})
+				}
+			}
+			if pairs {
+				// every pair of failing calls within one request (generic errors)
+				for k := range calls {
+					for k2 := k + 1; k2 < len(calls); k2++ {
+						plans = append(plans, plan{k, k2, world.FaultGeneric})
 					}
+				}
+			}
+			for _, pl := range plans {
+				k, kind := pl.k, pl.kind
+				{
 					if !dl.IsZero() && time.Now().After(dl) {
 						res.Exhaustive, res.CapHit = false, "deadline"
 						res.WallS = time.Since(t0).Seconds()
@@ -360,19 +377,29 @@ func c18Run(name string, cfg world.Config, tour []tourStep, dl time.Time) engine
 						refAcc = acceptable(s, ref, w, actor) // what the request legitimately makes acceptable when nothing fails
 					}
 					cl := w.Clone()
-					s.FaultAt, s.FaultKind = k, kind
+					s.FaultAt, s.FaultAt2, s.FaultKind = k, pl.k2, kind
 					o := act.Run(s, cl)
-					s.FaultAt = -1
+					s.FaultAt, s.FaultAt2 = -1, -1
 					res.Evaluations++
 					kname := map[world.FaultKind]string{world.FaultGeneric: "error", world.FaultNotFound: "not-found"}[kind]
 					class := fmt.Sprintf("%s@%s:%s", oRef.Req.Tag.Kind, calls[k], kname)
+					if pl.k2 >= 0 {
+						class += "+" + calls[pl.k2]
+						res.Cover["fault-pairs"]++
+					}
 					res.Distinct[class] = true
 					res.Cover["fault:"+strings.SplitN(calls[k], ":", 2)[0]]++
 					path := append(append([]string(nil), done...), fmt.Sprintf("%s !fault(call #%d %s -> %s)", act.Name, k, calls[k], kname))
+					if pl.k2 >= 0 {
+						path[len(path)-1] += fmt.Sprintf(" !fault(call #%d %s -> error)", pl.k2, calls[pl.k2])
+					}
 					if len(o.FaultFired) == 0 {
 						continue // the faulted run took another path and never reached that call
 					}
 					where := fmt.Sprintf("request %s with backend call #%d (%s) returning %s", act.Name, k, calls[k], kname)
+					if pl.k2 >= 0 {
+						where += fmt.Sprintf(" and call #%d (%s) failing too", pl.k2, calls[pl.k2])
+					}
 					// O1
 					if o.Panic != "" {
 						report("panic", "request="+oRef.Req.Tag.Kind+",call="+calls[k], where+": the request panicked: "+firstLineOf(o.Panic), path)
@@ -452,7 +479,7 @@ func c18Units(tier string) []engine.Unit {
 			c := cfg
 			c.Err500 = e500
 			n := fmt.Sprintf("%s,err500=%v", name, e500)
-			us = append(us, engine.Unit{Name: n, Run: func(dl time.Time) engine.UnitResult { return c18Run(n, c, tour, dl) }})
+			us = append(us, engine.Unit{Name: n, Run: func(dl time.Time) engine.UnitResult { return c18Run(n, c, tour, tier == "thorough", dl) }})
 		}
 	}
 	modsA := []string{"auth", "otp", "remember", "register", "confirm", "recover", "lock", "logout", "oauth2"}
@@ -476,6 +503,6 @@ func init() {
 		Rule:        "scripted tours through every handler of every flow (register, confirm, login+rm, protected route, OTP add/login/clear, recover start/middle/end with login-after on and off, remember re-authentication, OAuth2 start/callback, lock-triggering failures, e-mail verify start/end, TOTP setup/qr/confirm/validate by code and by recovery code/remove, SMS setup/confirm/resend/validate/remove, regen); for each request every backend call it makes is failed in turn (generic error, and the interface's not-found sentinel where it has one) under the silent and the 500-writing error handler; oracles: no panic, success implies saved, session on a one-time credential implies durable consumption, credential-acceptance monotonicity (probes on clones); classes = distinct (request kind, backend call, error kind) triples",
 		Units:       c18Units,
 		Need:        []string{"fault:db.Load", "fault:db.Save", "fault:db.Create", "fault:hasher.GenerateHash", "fault:renderer.Render", "fault:sms.Send", "fault:db.UseRememberToken", "fault:db.AddRememberToken", "fault:db.LoadByRecoverSelector", "fault:db.LoadByConfirmSelector", "fault:db.SaveOAuth2", "fault:db.DelRememberTokens"},
-		Assumptions: []string{"faults are injected into ServerStorer and its upgrades, Hasher.GenerateHash, ViewRenderer and SMSSender; mailer and client-state store failures are not (the latter is documented to panic in WriteHeader)", "single faults (one failing call per request)"},
+		Assumptions: []string{"faults are injected into ServerStorer and its upgrades, Hasher.GenerateHash, ViewRenderer and SMSSender; mailer and client-state store failures are not (the latter is documented to panic in WriteHeader)", "quick: single faults (one failing call per request); thorough: additionally every pair of failing calls within one request"},
 	})
 }
